@@ -206,13 +206,26 @@ static void tick(void) { now_ms += prng_below(4) ? prng_below(40) : prng_below(1
 static int tx_find(int tid) { for (int i = 0; i < ntx; i++) if (txs[i].b[0] == tid) return i; return -1; }
 static int body_off(void) { return 2 + al.sizeOfCOT + al.sizeOfCA + al.sizeOfIOA; }
 
+static void episode_upload(int damage);
 /* ---- episode 1: standard download with negative section acknowledgements */
 static void episode_download(int max_nack)
 {
     uint8_t b[300]; int n; n_dl++;
     memset(g_done, 0, sizeof g_done); memset(g_declined, 0, sizeof g_declined); ghost_new_pass(0);
     static uint8_t got[1 << 17]; long gotlen = 0; int filesum = 0;
-    if (nsec > 0 && prng_below(3) == 0) {      /* a transfer that was abandoned in the middle of a section comes first */
+    int pre = nsec > 0 ? (int) prng_below(6) : 9;
+    if (pre == 1 && nsec >= 2) {               /* a transfer that was abandoned after its first section was acknowledged comes first */
+        n = req_sc(b, fca, fioa, fnof, 0, 1, 0); send_raw(0, b, n); tick();
+        n = req_sc(b, fca, fioa, fnof, 0, 2, 0); send_raw(0, b, n); tick();
+        n = req_sc(b, fca, fioa, fnof, 1, 6, 0); send_raw(0, b, n);
+        for (int guard = 0; guard < 70000 && srv->state == TRANSMIT_SECTION; guard++) { tick(); run_task(0); }
+        tick(); n = req_af(b, fca, fioa, fnof, 1, 3); send_raw(0, b, n);
+        now_ms += 3001 + prng_below(2000); n_timeout++;
+    }
+    if (pre == 2 && hasReady && acceptUp) {    /* an upload comes first */
+        static int in_pre = 0; if (!in_pre) { in_pre = 1; episode_upload(0); in_pre = 0; tick(); }
+    }
+    if (pre == 0) {                            /* a transfer that was abandoned in the middle of a section comes first */
         n = req_sc(b, fca, fioa, fnof, 0, 1, 0); send_raw(0, b, n); tick();
         n = req_sc(b, fca, fioa, fnof, 0, 2, 0); send_raw(0, b, n); tick();
         n = req_sc(b, fca, fioa, fnof, 1, 6, 0); send_raw(0, b, n); tick();
